@@ -130,6 +130,33 @@ macro_rules! txt_arr {
     )*};
 }
 txt_arr!(16, 32, 64);
+impl Txt for std::path::PathBuf {
+    fn show(&self, o: &mut String) {
+        use std::os::unix::ffi::OsStrExt;
+        show_bytes(self.as_os_str().as_bytes(), o)
+    }
+    fn parse(p: &mut P) -> Self {
+        use std::os::unix::ffi::OsStrExt;
+        std::path::PathBuf::from(std::ffi::OsStr::from_bytes(&parse_bytes(p)))
+    }
+}
+// borrowed natives: the parsed owner is leaked (one small allocation per case)
+impl<'a> Txt for &'a [u8] {
+    fn show(&self, o: &mut String) {
+        show_bytes(self, o)
+    }
+    fn parse(p: &mut P) -> Self {
+        Box::leak(parse_bytes(p).into_boxed_slice())
+    }
+}
+impl<'a> Txt for &'a str {
+    fn show(&self, o: &mut String) {
+        show_bytes(self.as_bytes(), o)
+    }
+    fn parse(p: &mut P) -> Self {
+        Box::leak(String::from_utf8(parse_bytes(p)).expect("HARNESS-PARSE utf8").into_boxed_str())
+    }
+}
 impl<T: Txt> Txt for Option<T> {
     fn show(&self, o: &mut String) {
         o.push_str("( ");
@@ -194,7 +221,9 @@ impl<T: Txt, E: Txt> Txt for Result<T, E> {
     }
 }
 macro_rules! not_byte { ($($t:ty),*) => {$( impl NotByte for $t {} )*}; }
-not_byte!(i32, i64, u32, u64, usize, bool, f32, f64, String, Vec<u8>);
+not_byte!(i32, i64, u32, u64, usize, bool, f32, f64, String, Vec<u8>, std::path::PathBuf);
+impl<'a> NotByte for &'a [u8] {}
+impl<'a> NotByte for &'a str {}
 
 // ------------------------------------------------------------------------------- the type family
 macro_rules! pstruct {
@@ -624,6 +653,44 @@ pstruct!(HasEvo2 {
     #[prototk(3, bytes)] x: [Vec<u8>],
 });
 
+// PathBuf as the native value of `string` (its bytes need not be UTF-8: known class pathbuf-non-utf8) and of `bytes`
+pstruct!(Paths {
+    #[prototk(1, string)] s: [std::path::PathBuf],
+    #[prototk(2, bytes)] b: [std::path::PathBuf],
+    #[prototk(3, string)] o: [Option<std::path::PathBuf>],
+    #[prototk(4, string)] r: [Vec<std::path::PathBuf>],
+    #[prototk(5, bytes)] rb: [Vec<std::path::PathBuf>],
+});
+// borrowed natives
+#[derive(Clone, Debug, Default, Message, PartialEq)]
+struct Borrowed<'a> {
+    #[prototk(1, bytes)]
+    b: &'a [u8],
+    #[prototk(2, string)]
+    s: &'a str,
+    #[prototk(3, bytes)]
+    ob: Option<&'a [u8]>,
+    #[prototk(4, string)]
+    rs: Vec<&'a str>,
+}
+impl<'a> NotByte for Borrowed<'a> {}
+impl<'a> Txt for Borrowed<'a> {
+    fn show(&self, o: &mut String) {
+        o.push_str("( ");
+        self.b.show(o);
+        self.s.show(o);
+        self.ob.show(o);
+        self.rs.show(o);
+        o.push_str(") ");
+    }
+    fn parse(p: &mut P) -> Self {
+        p.expect("(");
+        let r = Borrowed { b: Txt::parse(p), s: Txt::parse(p), ob: Txt::parse(p), rs: Txt::parse(p) };
+        p.expect(")");
+        r
+    }
+}
+
 // a message type that contains itself: outside the modelled shapes (trees); used by `deep N` only
 pstruct!(Tree {
     #[prototk(1, message)] kids: [Vec<Tree>],
@@ -692,10 +759,9 @@ where
     }
 }
 
-fn enc_line<T>(v: &T) -> String
+fn enc_line<T>(v: &T, rt: fn(&[u8]) -> String) -> String
 where
-    T: Txt + Packable + for<'a> Unpackable<'a>,
-    for<'a> <T as Unpackable<'a>>::Error: Into<SError>,
+    T: Txt + Packable,
 {
     let bytes = stack_pack(v).to_vec();
     let sz = stack_pack(v).pack_sz();
@@ -705,15 +771,18 @@ where
     let mut streamed: Vec<u8> = Vec::new();
     let n = v.stream(&mut streamed).expect("stream to a Vec");
     let same = if buf2 != bytes { " PACK-DIFFERS" } else if streamed != bytes || n != sz { " STREAM-DIFFERS" } else { "" };
-    let rt = dec_line::<T>(&bytes);
-    format!("{} sz={}{} rt={}", hex(&bytes), sz, same, rt)
+    format!("{} sz={}{} rt={}", hex(&bytes), sz, same, rt(&bytes))
 }
 
 macro_rules! dispatch {
     ($name:expr, $op:expr, $arg:expr, [ $( $t:ident ),* ]) => {
         match ($name, $op) {
             $(
-                (stringify!($t), "enc") => { let v = <$t as Txt>::parse(&mut P::new($arg)); enc_line::<$t>(&v) }
+                (stringify!($t), "enc") => {
+                    fn rt<'a>(b: &'a [u8]) -> String { dec_line::<$t>(b) }
+                    let v = <$t as Txt>::parse(&mut P::new($arg));
+                    enc_line::<$t>(&v, rt)
+                }
                 (stringify!($t), "dec") => { let b = unhex($arg); dec_line::<$t>(&b) }
             )*
             _ => panic!("HARNESS-PARSE unknown type/op"),
@@ -786,7 +855,7 @@ fn run(line: &str) -> String {
             let (name, arg) = rest.split_once(' ').unwrap_or((rest, ""));
             dispatch!(name, op, arg, [
                 Empty, Ints, Fixeds, Blobs, Blob64, Inner, Nest, Opts, Reps, BigNums, Deep, Boxed, Choice,
-                HasChoice, E2, HasE2, MyErr, Res, ResS, InnerV2, NestV2, Wide, Evo1, Evo2, HasEvo1, HasEvo2, ResTop
+                HasChoice, E2, HasE2, MyErr, Res, ResS, InnerV2, NestV2, Wide, Evo1, Evo2, HasEvo1, HasEvo2, ResTop, Paths, Borrowed
             ])
         }
         "sc" | "scd" => {
